@@ -82,3 +82,13 @@ package samlidp
 //@ contract getSPMetadata
 //@ requires[cfg] r: r != nil
 //@ ensures[C09,C19] nil_iff_err: (spMetadata == nil) == (err != nil)
+
+//@ go func registered(s *Server, id string) bool { _, ok := s.serviceProviders[id]; return ok }
+//@ contract (*Server).HandlePutService
+//@ -- after a successful update the new entity ID is registered and the one this service name had before is not
+//@ assert@call[C19] WriteHeader #1 (rw http.ResponseWriter, code int) uses previous Service, previousErr error, service Service registry_in_step:
+//@    registered(s, service.Metadata.EntityID) &&
+//@    (previousErr == nil && previous.Metadata.EntityID != service.Metadata.EntityID ==> !registered(s, previous.Metadata.EntityID))
+//@ contract (*Server).HandleDeleteService
+//@ assert@call[C19] WriteHeader #1 (rw http.ResponseWriter, code int) uses service Service unregistered:
+//@    !registered(s, service.Metadata.EntityID)
